@@ -295,6 +295,7 @@ func init() {
 		x.orbitPairsSS(fns)
 		x.hashCollisions(fns)
 		x.nearMissBlocks(fns)
+		x.siblingDecoys(fns)
 		x.pairsFor(fns, valid, 120000*x.scale)
 		relC01(x, 20000*x.scale)
 	}
@@ -359,6 +360,7 @@ func init() {
 		x.orbitPairsSS(fns)
 		x.hashCollisions(fns)
 		x.nearMissBlocks(fns)
+		x.siblingDecoys(fns)
 		x.pairsFor(fns, valid, 150000*x.scale)
 		relC08(x, 30000*x.scale)
 	}
@@ -380,11 +382,22 @@ func init() {
 		}
 		x.everyCodePoint()
 		x.orbitPairs()
+		for _, r := range []rune{'é', 'я', 'ß', '世', '乖', 'K', 0x0800, 0xFFFD, '😀', 0x10000, 0xE0041, 0x10FFFF, 0x1F640, 'σ'} {
+			for _, q := range siblings(r) {
+				for _, pad := range []string{"", "x", "0123456789abcdef0123"} {
+					for _, s := range []string{pad + string(q), pad + string(q) + pad + string(r), string(r) + pad + string(q) + pad} {
+						x.eval(&Case{Fn: "IndexRune", S: []byte(s), R: int64(r)}, false)
+						x.eval(&Case{Fn: "ContainsRune", S: []byte(s), R: int64(r)}, false)
+					}
+				}
+			}
+		}
 	}
 	props["C11"] = func(x *Ctx) {
 		x.anyFor(both, 150000*x.scale)
 		x.anyGrid()
 		x.anyCaseBit()
+		x.siblingDecoys([]string{"IndexAny", "LastIndexAny"})
 		x.orbitPairsSS([]string{"IndexAny", "LastIndexAny"})
 	}
 	props["C12"] = func(x *Ctx) {
@@ -394,6 +407,7 @@ func init() {
 		x.thresholdSweep(fns, streamValid, 60, 20)
 		x.orbitPairsSS(fns)
 		x.hashCollisions(fns)
+		x.siblingDecoys(fns)
 		for _, c := range "KkSsaZ1" { // single byte needles
 			for i := 0; i < 300*x.scale; i++ {
 				s, _ := x.g.byteCase(streamValid)
@@ -745,6 +759,49 @@ func (x *Ctx) anyCaseBit() {
 		}
 	}
 	x.note("any/case-bit family: %d cases", n)
+}
+
+// siblings: code points whose UTF-8 encoding differs from r's in exactly one byte (the lead byte, or one
+// continuation byte) — what a byte-wise comparison that skips or mis-indexes one byte cannot tell from r
+func siblings(r rune) []rune {
+	e := []byte(string(r))
+	var out []rune
+	for i := range e {
+		found := 0
+		for d := 1; d < 256 && found < 3; d++ {
+			b := append([]byte{}, e...)
+			b[i] = e[i] + byte(d)*37 // spread over the byte values
+			q, w := utf8.DecodeRune(b)
+			if q != utf8.RuneError && w == len(b) && len(string(q)) == len(e) && q != r && len(orbitOf(q)) == 1 && len(orbitOf(r)) >= 1 {
+				out = append(out, q)
+				found++
+			}
+		}
+	}
+	return out
+}
+
+// siblingDecoys: a sibling of the needle's code point in the haystack, alone, and to the left / right of a real occurrence
+func (x *Ctx) siblingDecoys(fns []string) {
+	n := 0
+	for _, r := range []rune{'é', 'я', 'ß', '世', '乖', 'K', 0x0800, 0xFFFD, '😀', 0x10000, 0xE0041, 0x10FFFF, 0x1F640} {
+		for _, q := range siblings(r) {
+			for _, pad := range []string{"", "x", "0123456789abcdef0123"} {
+				for _, s := range [][]byte{
+					[]byte(pad + string(q)), []byte(pad + string(q) + pad), []byte(pad + string(r) + pad + string(q)),
+					[]byte(string(q) + pad + string(r) + pad), []byte(string(q) + string(q) + string(r) + string(q)),
+				} {
+					for _, fn := range fns {
+						x.eval(&Case{Fn: fn, S: s, T: []byte(string(r))}, n%31 == 0)
+						x.eval(&Case{Fn: fn, S: s, T: []byte(string(r) + "x")}, false)
+						x.eval(&Case{Fn: fn, S: s, T: []byte(string(q))}, false)
+						n += 3
+					}
+				}
+			}
+		}
+	}
+	x.note("UTF-8 sibling decoys: %d cases", n)
 }
 
 // fffdBait: a literal U+FFFD in one argument opposite a multi-byte code point in the other, behind (or in
